@@ -265,19 +265,24 @@ End M.
 
 (* ---------------------------------------------------------------- tt_tensor.py: validate_tt_rank(allow_overparametrization=False)
    for list ranks, as the code is, and the ranks TT-SVD realises (see Proofs/SvdDecompValidate.v) *)
-(* the loop of the code: for i, s in enumerate(shape[:-1]): min(rank[i] * s, prod(shape[i+1:]), rank[i+1]);
-   rl = rank[i] (the REQUESTED left rank), ranks = rank[i+1:] *)
-Fixpoint strict_body_code (sizes : list nat) (rl : nat) (ranks : list nat) : list nat :=
+(* the loop of the code (after fix 03a63dd), with its accumulator:
+     validated_rank = [1]
+     for i, s in enumerate(shape[:-1]):
+         validated_rank.append(min(validated_rank[i] * s, prod(shape[i+1:]), rank[i+1]))
+     validated_rank.append(1) *)
+Fixpoint strict_loop_code (sizes : list nat) (i : nat) (validated rank : list nat) : list nat :=
   match sizes with
-  | [] => []
+  | [] => validated
   | s :: rest =>
     match rest with
-    | [] => []
-    | _ :: _ => Nat.min (rl * s) (Nat.min (prod rest) (hd 1 ranks)) :: strict_body_code rest (hd 1 ranks) (tl ranks)
+    | [] => validated
+    | _ :: _ =>
+      strict_loop_code rest (S i)
+        (validated ++ [Nat.min (nth i validated 0 * s) (Nat.min (prod rest) (nth (S i) rank 0))]) rank
     end
   end.
 Definition validate_tt_rank_strict_code (shape rank : list nat) : list nat :=
-  1 :: strict_body_code shape (hd 1 rank) (tl rank) ++ [1].
+  strict_loop_code shape 0 [1] rank ++ [1].
 
 (* the bonds TT-SVD realises: the left factor is the bond obtained at the previous step *)
 Fixpoint realised_body (sizes : list nat) (rk : nat) (ranks : list nat) : list nat :=
@@ -291,6 +296,4 @@ Fixpoint realised_body (sizes : list nat) (rk : nat) (ranks : list nat) : list n
   end.
 Definition realised_tt_rank (shape rank : list nat) : list nat := 1 :: realised_body shape 1 (tl rank) ++ [1].
 
-(* the repaired rule (n_row = validated_rank[i] * s) is by construction the realised rank *)
-Definition validate_tt_rank_strict_fixed := realised_tt_rank.
 
